@@ -8,6 +8,7 @@ change the layout, page codes, service actions, sector layouts) is enumerated, e
 buffer; z3 decides that each reported field equals the variable placed at the
 standard's position, that every descriptor inside the reported length is returned,
 in order, and nothing beyond it."""
+from spec import cdb_layouts as L
 from spec import responses as R
 from symx.ctx import Skip
 
@@ -23,7 +24,25 @@ def _buf(ctx, data):
     return bytearray(data)
 
 
-def _run(ctx, label, fn, data, exp, **kw):
+def _prior(ctx, cmd):
+    """what happened before the response is decoded is the solver's choice too: nothing, or other commands of the
+    same class were built (all one-bit arguments 0, then all 1 -- or the other way round).  A decoder is a function
+    of the buffer and its own arguments, not of the commands constructed earlier."""
+    from . import common as K
+    which = ctx.choose("before-decoding", ["nothing", "commands built, flags-on last", "commands built, flags-off last"])
+    if which == 0:
+        return
+    spec = L.CDB[cmd]
+    st_name = "spc" if "spc" in spec["sets"] else list(spec["sets"])[0]
+    a0, e0 = K.concrete_args(spec)
+    on = dict(a0, **{n: 1 for n, segs in spec["fields"].items() if L.width(segs) == 1})
+    for args in ((a0, on) if which == 1 else (on, a0)):
+        ctx.attempt(K.build, spec, K.lookup_opcode(spec, st_name), dict(args), dict(e0))
+
+
+def _run(ctx, label, fn, data, exp, cmd=None, **kw):
+    if cmd is not None:
+        _prior(ctx, cmd)
     st, r = ctx.attempt(fn, _buf(ctx, data), **kw)
     ctx.check("%s: a well-formed response is decoded without error" % label, ctx.oracle(st == "ok"), repr(r))
     if st == "ok":
@@ -41,7 +60,7 @@ def h_inquiry(ctx, what, arg=None, trailing=0):
     from pyscsi.pyscsi.scsi_cdb_inquiry import Inquiry
     if what == "standard":
         data, exp = R.inquiry_standard(ctx, trailing)
-        return _run(ctx, "standard INQUIRY", Inquiry.unmarshall_datain, data, exp, evpd=0)
+        return _run(ctx, "standard INQUIRY", Inquiry.unmarshall_datain, data, exp, cmd="INQUIRY", evpd=0)
     if what == "fixed":
         data, exp = R.vpd_fixed(ctx, arg, trailing)
     elif what == "supported":
@@ -52,7 +71,7 @@ def h_inquiry(ctx, what, arg=None, trailing=0):
         data, exp = R.vpd_device_identification(ctx, arg, trailing, concrete_headers=len(arg) > 4)
         for d in exp["designator_descriptors"]:
             R.fix_protocol_identifier(d, d["piv"], d["association"])
-    return _run(ctx, "VPD %s %s" % (what, arg), Inquiry.unmarshall_datain, data, exp, evpd=1)
+    return _run(ctx, "VPD %s %s" % (what, arg), Inquiry.unmarshall_datain, data, exp, cmd="INQUIRY", evpd=1)
 
 
 def h_mode_sense(ctx, ten, kinds, bd, trailing=0):
@@ -62,7 +81,8 @@ def h_mode_sense(ctx, ten, kinds, bd, trailing=0):
     if ctx.known("C04-mode-sense-first-page-only") and len(kinds) > 1:
         exp = dict(exp, mode_pages=exp["mode_pages"][:1])
     cls = ModeSense10 if ten else ModeSense6
-    return _run(ctx, "MODE SENSE(%d) %s" % (10 if ten else 6, kinds), cls.unmarshall_datain, data, exp)
+    return _run(ctx, "MODE SENSE(%d) %s" % (10 if ten else 6, kinds), cls.unmarshall_datain, data, exp,
+                cmd="MODE SENSE(10)" if ten else "MODE SENSE(6)")
 
 
 def h_simple(ctx, fmt, arg=None, trailing=0):
